@@ -589,8 +589,24 @@ func replayCounterexample(p *Program, res *UnitResult, o *Obligation, base strin
 	if root.Parent() != nil || root.Pkg == nil {
 		return replayOutcome{Note: "replay not supported for closures"}
 	}
-	if !panicKinds[o.Kind] && o.Kind != "overread" {
-		return replayOutcome{Note: "replay of " + o.Kind + " obligations needs clause evaluation on the real code; the model is listed below"}
+	var clause *Clause
+	if o.Kind == "ensures" {
+		label := o.Label
+		if i := strings.Index(label, "@ret"); i >= 0 {
+			label = label[:i]
+		}
+		if ct := u.db.forFunc(u.rootKey); ct != nil {
+			for i := range ct.Ensures {
+				if ct.Ensures[i].Label == label {
+					clause = &ct.Ensures[i]
+				}
+			}
+		}
+		if clause == nil {
+			return replayOutcome{Note: "clause not found for replay"}
+		}
+	} else if !panicKinds[o.Kind] && o.Kind != "overread" {
+		return replayOutcome{Note: "replay of " + o.Kind + " obligations is not supported (the state is internal to the function); the model is listed below"}
 	}
 	if strings.Contains(o.Name, "inv-") {
 		return replayOutcome{Note: "model starts at a loop head"}
@@ -643,16 +659,6 @@ func replayCounterexample(p *Program, res *UnitResult, o *Obligation, base strin
 	if orc.failed {
 		return replayOutcome{Note: "could not extract a complete model"}
 	}
-	// call expression
-	var call string
-	if root.Signature.Recv() != nil {
-		call = fmt.Sprintf("%s.%s(%s)", argExprs[0], root.Name(), strings.Join(argExprs[1:], ", "))
-		if _, isPtr := root.Signature.Recv().Type().(*types.Pointer); isPtr {
-			call = fmt.Sprintf("(%s).%s(%s)", argExprs[0], root.Name(), strings.Join(argExprs[1:], ", "))
-		}
-	} else {
-		call = fmt.Sprintf("%s(%s)", root.Name(), strings.Join(argExprs, ", "))
-	}
 	testName := "TestGovcReplay"
 	var b strings.Builder
 	fmt.Fprintf(&b, "// Code generated by govc from a solver counterexample. Obligation: %s\n", o.Name)
@@ -666,14 +672,55 @@ func replayCounterexample(p *Program, res *UnitResult, o *Obligation, base strin
 		fmt.Fprintf(&b, "\t%q\n", k)
 	}
 	b.WriteString(")\n\n")
-	if m.needSet {
-		b.WriteString(govcSetHelper)
-	}
+	header := b.String()
+	b.Reset()
 	fmt.Fprintf(&b, "func %s(t *testing.T) {\n", testName)
 	for _, d := range m.decls {
 		b.WriteString("\t" + d + "\n")
 	}
 	nres := root.Signature.Results().Len()
+	// bind arguments to named locals
+	var inNames []string
+	for i, prm := range root.Params {
+		nm := fmt.Sprintf("in_%s", prm.Name())
+		if prm.Name() == "" || prm.Name() == "_" {
+			nm = fmt.Sprintf("in_%d", i)
+		}
+		inNames = append(inNames, nm)
+		fmt.Fprintf(&b, "\t%s := %s\n\t_ = %s\n", nm, argExprs[i], nm)
+	}
+	var clauseSrc, clauseWhy string
+	var gt *goTranslator
+	if clause != nil {
+		gt = &goTranslator{u: u, fn: root, pkg: root.Pkg.Pkg, qual: m.qual, vars: map[string]goVar{}, specs: map[string]bool{}, imports: m.imports}
+		for i, prm := range root.Params {
+			gt.vars[prm.Name()] = goVar{src: inNames[i], typ: prm.Type(), old: "old_" + inNames[i]}
+		}
+		rn := resultNames(root)
+		for i, n := range rn {
+			gt.vars[n] = goVar{src: fmt.Sprintf("r%d", i), typ: root.Signature.Results().At(i).Type()}
+			if len(rn) == 1 {
+				gt.vars["result"] = gt.vars[n]
+			}
+		}
+		clauseSrc, clauseWhy = gt.clauseToGo(clause.Expr)
+		if clauseSrc != "" {
+			m.imports["reflect"] = true
+			m.imports["unsafe"] = true
+			for i, prm := range root.Params {
+				fmt.Fprintf(&b, "\told_%s := govcClone(%s).(%s)\n\t_ = old_%s\n", inNames[i], inNames[i], m.typeStr(prm.Type()), inNames[i])
+			}
+		}
+	}
+	if clause != nil && clauseSrc == "" {
+		return replayOutcome{Note: "the violated clause cannot be evaluated on the real code: " + clauseWhy}
+	}
+	var call string
+	if root.Signature.Recv() != nil {
+		call = fmt.Sprintf("(%s).%s(%s)", inNames[0], root.Name(), strings.Join(inNames[1:], ", "))
+	} else {
+		call = fmt.Sprintf("%s(%s)", root.Name(), strings.Join(inNames, ", "))
+	}
 	lhs := ""
 	if nres > 0 {
 		var rs []string
@@ -687,7 +734,7 @@ func replayCounterexample(p *Program, res *UnitResult, o *Obligation, base strin
 		// rebuild every byte-slice argument with cap == len: an access beyond len then panics
 		for i, prm := range root.Params {
 			if isByteSlice(prm.Type()) {
-				fmt.Fprintf(&b, "\t%s = append(make([]byte, 0, len(%s)), %s...)\n", argExprs[i], argExprs[i], argExprs[i])
+				fmt.Fprintf(&b, "\t%s = append(make([]byte, 0, len(%s)), %s...)\n", inNames[i], inNames[i], inNames[i])
 			}
 		}
 	}
@@ -701,8 +748,34 @@ func replayCounterexample(p *Program, res *UnitResult, o *Obligation, base strin
 	} else {
 		b.WriteString("\tfmt.Println(\"GOVC-REPLAY-RETURNED\")\n")
 	}
+	if clauseSrc != "" {
+		fmt.Fprintf(&b, "\tfmt.Printf(\"GOVC-REPLAY-CLAUSE %s: %%v\\n\", %s)\n", clause.Label, clauseSrc)
+	}
 	b.WriteString("}\n")
-	src := b.String()
+	// imports are complete only now: rebuild the header
+	var hb strings.Builder
+	fmt.Fprintf(&hb, "// Code generated by govc from a solver counterexample. Obligation: %s\n", o.Name)
+	fmt.Fprintf(&hb, "package %s\n\nimport (\n", root.Pkg.Pkg.Name())
+	var imps2 []string
+	for k := range m.imports {
+		imps2 = append(imps2, k)
+	}
+	sortStringsInPlace(imps2)
+	for _, k := range imps2 {
+		fmt.Fprintf(&hb, "\t%q\n", k)
+	}
+	hb.WriteString(")\n\n")
+	if m.needSet {
+		hb.WriteString(govcSetHelper)
+	}
+	if clauseSrc != "" {
+		hb.WriteString(govcCloneHelper)
+		for _, sp := range gt.specSrc {
+			hb.WriteString(sp)
+		}
+	}
+	_ = header
+	src := hb.String() + b.String()
 	goPath := base + "_test.go"
 	os.WriteFile(goPath, []byte(src), 0o644)
 	// overlay into the package directory
@@ -720,7 +793,12 @@ func replayCounterexample(p *Program, res *UnitResult, o *Obligation, base strin
 	if len(m.approx) > 0 {
 		ro.Note = "approximations: " + strings.Join(dedup(m.approx), "; ")
 	}
-	if strings.Contains(out, "GOVC-REPLAY-PANIC") || strings.Contains(out, "panic:") {
+	if clause != nil && strings.Contains(out, "GOVC-REPLAY-CLAUSE "+clause.Label+": false") {
+		ro.Reproduced = true
+		ro.Note += "\nthe violated clause evaluates to false on the real code for the counterexample"
+	} else if clause != nil && strings.Contains(out, "GOVC-REPLAY-CLAUSE "+clause.Label+": true") {
+		ro.Note += "\nthe clause holds on the real code for this candidate input"
+	} else if strings.Contains(out, "GOVC-REPLAY-PANIC") || strings.Contains(out, "panic:") {
 		ro.Reproduced = true
 		ro.Note += "\nthe real code panics on the counterexample"
 	} else if strings.Contains(out, "GOVC-REPLAY-RETURNED") {
